@@ -241,6 +241,32 @@ class ExecBase:
         _, val = self.dict_fns(d.kind)
         return self.w.wrap(d.kind[2], val(st.version("dict"), d.t, self.dict_key(d, k)))
 
+    def dict_store(self, st, d, k, v):
+        """d[k] = v : the (has, val) functions of d's family change at (d, k) only; every other dictionary family is unchanged"""
+        w = self.w
+        has, val = self.dict_fns(d.kind)
+        kt = self.dict_key(d, k)
+        vt = self.coerce(v, d.kind[2]).t
+        vo = st.version("dict")
+        if self.contract is not None and not self.discovery and "dict" not in self.contract.modifies and "*" not in self.contract.modifies:
+            self.oblige("frame", st, z3.BoolVal(False), "dictionary store, outside the function's modifies", name="frame:dict")
+        if self.discovery:
+            self.discovered.add(("ghost", "dict"))
+        st.bump("dict")
+        vn = st.version("dict")
+        dd = z3.Const(w.fresh_name("d"), w.Ref)
+        kk = z3.Const(w.fresh_name("k"), kt.sort())
+        here = z3.And(dd == d.t, kk == kt)
+        st.assume(z3.ForAll([dd, kk], has(vn, dd, kk) == z3.Or(has(vo, dd, kk), here), patterns=[has(vn, dd, kk)]))
+        st.assume(z3.ForAll([dd, kk], val(vn, dd, kk) == z3.If(here, vt, val(vo, dd, kk)), patterns=[val(vn, dd, kk)]))
+        for name, f in list(w.ufs.items()):
+            if not isinstance(name, str) or not (name.startswith("dict_has:") or name.startswith("dict_val:")):
+                continue
+            if f.eq(has) or f.eq(val):
+                continue
+            k2 = z3.Const(w.fresh_name("k"), f.domain(2))
+            st.assume(z3.ForAll([dd, k2], f(vn, dd, k2) == f(vo, dd, k2), patterns=[f(vn, dd, k2)]))
+
     def empty_dict(self, st, kind):
         w = self.w
         d = self.allocate_raw(st, "dict")
@@ -286,7 +312,7 @@ class ExecBase:
             return z3.BoolVal(True)
         if a is NONE or b is NONE:
             o = b if a is NONE else a
-            if isinstance(o, V) and isinstance(o.kind, tuple) and o.kind[0] == "ref":
+            if isinstance(o, V) and isinstance(o.kind, tuple) and o.kind[0] in ("ref", "dict"):
                 return o.t == self.w.null
             if self.is_optint(o):
                 return self.optint_is_none(o)
